@@ -1100,15 +1100,27 @@ pub fn chains_floats(f: Fmt, run: u64, extra_patterns: usize, seed: u64, binade_
                     first = false;
                     let (k, j) = f.upper_boundary(a);
                     let (hd, he) = expand_full(k, j);
+                    // a <= H - unit < H - far < H < H + far < H + unit <= succ(a), unit = one in the last place of
+                    // the fully written expansion (an integer step for integer midpoints: the exact-integer path)
+                    let one = |emit: &mut Emit, d: &[u8], e: i64| {
+                        let (sd, se) = strip0(d, e);
+                        // integers are written as integers (no exponent), everything else in scientific notation
+                        if e == 0 {
+                            emit_placements(emit, d, 0, PL_INT, "CHAIN-f", mask, None);
+                        } else {
+                            emit_placements(emit, &sd, se, if sd.len() > 1 { PL_SCI } else { PL_INT }, "CHAIN-f", mask, None);
+                        }
+                    };
+                    one(emit, &bump_last(&hd, false), he);
                     let mut v = bump_last(&hd, false);
                     v.extend_from_slice(&[b'9'; 26]);
                     emit_placements(emit, &v, he - 26, PL_SCI, "CHAIN-f", mask, None);
-                    let (td, te) = strip0(&hd, he);
-                    emit_placements(emit, &td, te, if td.len() > 1 { PL_SCI } else { PL_INT }, "CHAIN-f", mask, None);
+                    one(emit, &hd, he);
                     let mut v = hd.clone();
                     v.extend_from_slice(&[b'0'; 25]);
                     v.push(b'1');
                     emit_placements(emit, &v, he - 26, PL_SCI, "CHAIN-f", mask, None);
+                    one(emit, &bump_last(&hd, true), he);
                 }
             }
         }));
